@@ -289,6 +289,12 @@ func child(c *kit.Ctx, role string) {
 				ok = guarded(s, fmt.Sprintf("failing-stop/%d", i), func() bool { runFailingStop(s, c, i, st); return true })
 			}
 		}
+		for i := 0; i < 6 && ok; i++ {
+			if c.Want(fmt.Sprintf("restart-same-name/%d", i)) {
+				i := i
+				ok = guarded(s, fmt.Sprintf("restart-same-name/%d", i), func() bool { runRestartSameName(s, c, i, st); return true })
+			}
+		}
 		for i := 0; i < 12 && ok; i++ {
 			if c.Want(fmt.Sprintf("stop-inflight/%d", i)) {
 				i := i
